@@ -6,7 +6,7 @@
 From Coq Require Import ZArith List Bool.
 From Hts Require Import Base.Prim Generated Model.Index Model.Tabix Model.IndexSpec Model.IndexIO
   Model.Csi Model.TabixSpec Proofs.IndexStats Proofs.IndexIO Proofs.IndexIOFull Proofs.IndexFinal Proofs.TabixIO
-  Proofs.CsiStats Proofs.CsiIO Proofs.IndexFinal2.
+  Proofs.CsiStats Proofs.CsiIO Proofs.IndexFinal2 Proofs.IndexHist.
 Open Scope Z_scope.
 
 (** Statistics are true: for EVERY record list that Add accepts (whatever its
@@ -55,6 +55,21 @@ Theorem chunks_preserved :
     (forall rid, ix_refstats (bai_reread ix) rid = ix_refstats ix rid).
 Proof. exact bai_io_preserves. Qed.
 Print Assumptions chunks_preserved.
+
+(** Interleaved histories: in EVERY state reached from the empty index by
+    successful Add, sort (WriteIndex) and Chunks calls in any order (records
+    well formed, numbers fit their fields), WriteIndex followed by ReadIndex
+    gives [bai_reread ix], writing that gives the same bytes, and every answer
+    and statistic is unchanged. *)
+Theorem index_io_roundtrip_history :
+  forall rs ix, hist rs ix -> ix_wf rs -> idx_ranges ix ->
+    bai_read (fst (bai_write ix)) = Ok (Some (bai_reread ix)) /\
+    fst (bai_write (bai_reread ix)) = fst (bai_write ix) /\
+    (forall rid beg end_, fst (ix_chunks (bai_reread ix) rid beg end_) = fst (ix_chunks ix rid beg end_)) /\
+    ix_numrefs (bai_reread ix) = ix_numrefs ix /\ iunm (bai_reread ix) = iunm ix /\
+    (forall rid, ix_refstats (bai_reread ix) rid = ix_refstats ix rid).
+Proof. exact hist_io_roundtrip. Qed.
+Print Assumptions index_io_roundtrip_history.
 
 (** tabix, byte level, for EVERY tabix index that fits ([tbx_fits]: header
     values in range, names without NUL bytes and pairwise different, one name
